@@ -175,7 +175,7 @@ def eval_parsed(case):
 def parsed_campaign(shard, nshards, tier):
     from vlib.runner import h64
     return greybox.campaign(shard, nshards, tier, PROPERTY, "parsed", quick=14000, thorough=800000,
-                            wrap=lambda t: (t, h64(t) % len(OPT_SETS)))
+                            wrap=lambda t: (t, h64(t) % len(OPT_SETS)), valid_only=True)
 
 
 # --------------------------------------------------------------------------------------------
